@@ -215,7 +215,7 @@ def run_reference(case: Case, inp: Input, creates, step_budget=200_000):
 
 def known_trigger(tr):
     """mechanisms of known findings, recognised on the *reference* trace"""
-    for k in ("msize_after_read_expansion", "static_value_call", "sha3_85_ff"):
+    for k in ("msize_after_read_expansion", "static_value_call", "sha3_85_ff", "extcodehash_codeless_existing"):
         if tr.get(k):
             return k
     if tr["maxstack"] > 1000:
